@@ -41,7 +41,7 @@ def gen_case(seed, i):
     isolate = nroots >= 2 and rng.random() < 0.4
     if isolate:
         gflags.append("--isolate")
-    sym = (not isolate) and rng.random() < 0.3
+    sym = rng.random() < 0.3
     if sym:
         gflags.append("-S")
     elif rng.random() < 0.2:
@@ -187,8 +187,8 @@ def run_case(case):
         after = inventory(rd.world)
         op = case["op"]
 
-        def V(clause, detail):
-            viol.append({"clause": clause, "detail": "%s | op=%s dargs=%s gflags=%s fmt=%s | stderr=%s | before=%s | after=%s" % (
+        def V(clause, detail, paths=()):
+            viol.append({"clause": clause, "paths": [b2s(p) for p in paths], "detail": "%s | op=%s dargs=%s gflags=%s fmt=%s | stderr=%s | before=%s | after=%s" % (
                 detail, op, case["dargs"], case["gflags"], case["fmt"], res.err.decode("utf-8", "replace")[-500:],
                 inv_brief(before), inv_brief(after))})
 
@@ -206,7 +206,8 @@ def run_case(case):
         lost = contents_of(before) - contents_of(after)
         if lost:
             victims = [b2s(p) for p, e in before.items() if e.type == "f" and e.sha in lost]
-            V("content-conserved", "contents %s (of %s) are stored in no regular file any more" % (sorted(x[:8] for x in lost), victims))
+            V("content-conserved", "contents %s (of %s) are stored in no regular file any more" % (sorted(x[:8] for x in lost), victims),
+              [p for p, e in before.items() if e.type == "f" and e.sha in lost])
         # (c) unlisted paths untouched
         for p, e in before.items():
             if e.type == "d" or p in listed or p.startswith(b"T/") or p == b"T":
@@ -230,7 +231,8 @@ def run_case(case):
             need = min(need_n, len(reps))
             if untouched < need:
                 V("replicas-untouched", "group %s: %d replica(s) untouched, need %d (n=%s, %d replicas: %s)" % (
-                    grp.hash[:8], untouched, need, n_eff, len(reps), [[b2s(ops.relw(rd, p) or p) for p in r_] for r_ in reps]))
+                    grp.hash[:8], untouched, need, n_eff, len(reps), [[b2s(ops.relw(rd, p) or p) for p in r_] for r_ in reps]),
+                  [ops.relw(rd, p) or p for r_ in reps for p in r_])
         # (d) original paths read back
         if op in ("link", "softlink", "dedupe"):
             for r in sorted(listed):
@@ -239,7 +241,7 @@ def run_case(case):
                 now = read_through(rd.world, r)
                 if now != orig.get(r):
                     V("paths-read-back", "after %s path %r does not read back its former bytes (%r -> %r)" % (
-                        op, b2s(r), None if orig.get(r) is None else len(orig[r]), None if now is None else len(now)))
+                        op, b2s(r), None if orig.get(r) is None else len(orig[r]), None if now is None else len(now)), [r])
         # (e) move: bytes at the mapped location
         if op == "move":
             for r in sorted(listed):
@@ -262,3 +264,47 @@ def run_case(case):
             "info": {"op": op, "fmt": case["fmt"], "gflags": case["gflags"], "dargs": case["dargs"], "groups": len(rep.groups),
                      "changed": len(changed), "rc": res.rc},
         }
+
+
+# ----------------------------------------------------------------------------- known findings
+
+def _symlink_across_isolate_roots(case, violation):
+    """`group -S --isolate`: a symbolic link and the file it points to lie under different input
+    roots, so they count as two replicas; the target (and with it every other dropped member of the
+    group, which is linked to the retained link) is then dropped/replaced while the link is retained.
+    Accepted only when every violating path belongs to the content class of such a link's target."""
+    if "--isolate" not in case["gflags"] or "-S" not in case["gflags"]:
+        return False
+    import posixpath
+    from ..world import content_key
+    ents = case["world"]["entries"]
+    roots = case["roots"]
+
+    def root_of(p):
+        return next((r for r in roots if p == r or p.startswith(r + "/")), None)
+
+    key = {}
+    for e in ents:
+        if e["t"] == "f":
+            key[e["p"]] = content_key(e["c"])
+    for e in ents:
+        if e["t"] == "h" and e["to"] in key:
+            key[e["p"]] = key[e["to"]]
+    links = {}
+    for e in ents:
+        if e["t"] == "l":
+            to = e["to"]
+            tgt = to[7:] if to.startswith("@ROOT@/") else (None if to.startswith("/") else posixpath.normpath(posixpath.join(posixpath.dirname(e["p"]), to)))
+            if tgt in key:
+                links[e["p"]] = tgt
+                key[e["p"]] = key[tgt]
+    bad_classes = {key[t] for l, t in links.items() if root_of(t) is not None and root_of(l) is not None and root_of(t) != root_of(l)}
+    if not bad_classes:
+        return False
+    paths = violation.get("paths", [])
+    if violation["clause"] == "replicas-untouched":
+        return any(key.get(p) in bad_classes for p in paths)
+    return bool(paths) and all(key.get(p) in bad_classes for p in paths)
+
+
+KNOWN_PREDICATES = {"c02-symlink-and-target-in-different-isolate-roots": _symlink_across_isolate_roots}
